@@ -235,3 +235,95 @@ def compute_rdf(ctx, case):
 
 
 contract("C16", "mdtraj/geometry/rdf.py", "compute_rdf", cases=["2x2x3"], replay="rdf", covers=["returned"], max_paths=200)(compute_rdf)
+
+
+# =====================================================================================================
+class _El:
+    def __init__(self, m):
+        self.mass = m
+
+
+class _At:
+    def __init__(self, i, m):
+        self.index, self.element = i, _El(m)
+
+
+def _shape_traj(ctx, n_frames, n_atoms, with_masses=True):
+    X = [[[ctx.real(f"x{f}_{a}_{k}") for k in range(3)] for a in range(n_atoms)] for f in range(n_frames)]
+    M = [ctx.real(f"m{a}") for a in range(n_atoms)]
+    ctx.assume(*[m > 0 for m in M])
+
+    class TopM:
+        atoms = [_At(a, M[a]) for a in range(n_atoms)]
+
+    class T:
+        pass
+    t = T()
+    t.xyz = npobj.oarr((n_frames, n_atoms, 3), lambda f, a, k: X[f][a][k])
+    t.n_frames, t.n_atoms, t.top, t.topology = n_frames, n_atoms, TopM, TopM
+    return t, X, M
+
+
+def closed_forms(ctx, case):
+    """centre of geometry = mean position; centre of mass = sum m_i x_i / sum m_i; gyration tensor S_ab = 1/N sum (x_a - c_a)(x_b - c_b)
+    about the centre of geometry; Rg^2 = sum w_i |x_i - c|^2 with w = m / sum m (uniform without masses) about the centre of
+    geometry (the docstring gives no formula; this is what `masses` means in the code).  2 frames x 3 atoms, symbolic values."""
+    ex = ctx.ex
+    interp = ctx.interp
+    interp.import_models["numpy"] = npobj.NumpyO()
+    F, A = 2, 3
+    t, X, M = _shape_traj(ctx, F, A)
+    mean = lambda f, k: sum(rterm(X[f][a][k]) for a in range(A)) / A
+    if case in ("center_of_geometry", "center_of_mass"):
+        interp.import_models["mdtraj.geometry"] = Namespace("g", _geometry=None)
+        mod = ctx.module("mdtraj/geometry/distance.py")
+        out = ctx.call(mod.globals["compute_" + case], t)
+        ctx.ensure("no-exception", not out.raised)
+        if out.raised:
+            return
+        ctx.cover("returned")
+        r = out.value
+        msum = sum(rterm(m) for m in M)
+        for f in range(F):
+            for k in range(3):
+                if case == "center_of_geometry":
+                    ctx.ensure(f"centre[{f}][{k}]=mean-position", rterm(r[f][k]) == mean(f, k))
+                else:
+                    ctx.ensure(f"centre[{f}][{k}]*sum(m)=sum(m_i*x_i)", rterm(r[f][k]) * msum == sum(rterm(M[a]) * rterm(X[f][a][k]) for a in range(A)))
+    elif case == "gyration_tensor":
+        dist = Namespace("distance", compute_center_of_geometry=lambda tr: npobj.oarr((F, 3), lambda f, k: SReal(mean(f, k))))
+        interp.import_models["mdtraj.geometry.distance"] = dist
+        mod = ctx.module("mdtraj/geometry/shape.py")
+        out = ctx.call(mod.globals["compute_gyration_tensor"], t)
+        ctx.ensure("no-exception", not out.raised)
+        if out.raised:
+            return
+        ctx.cover("returned")
+        r = out.value
+        for f in range(F):
+            for i in range(3):
+                for k in range(3):
+                    want = sum((rterm(X[f][a][i]) - mean(f, i)) * (rterm(X[f][a][k]) - mean(f, k)) for a in range(A)) / A
+                    ctx.ensure(f"S[{f}][{i}][{k}]=1/N*sum((x-c)_i*(x-c)_k)", rterm(r[f][i][k]) == want)
+    else:
+        mod = ctx.module("mdtraj/geometry/rg.py")
+        masses = None if case == "rg" else npobj.oarr((A,), lambda a: M[a])
+        out = ctx.call(mod.globals["compute_rg"], t, masses=masses)
+        ctx.ensure("no-exception", not out.raised)
+        if out.raised:
+            return
+        ctx.cover("returned")
+        r = out.value
+        msum = sum(rterm(m) for m in M)
+        for f in range(F):
+            d2 = [sum((rterm(X[f][a][k]) - mean(f, k)) * (rterm(X[f][a][k]) - mean(f, k)) for k in range(3)) for a in range(A)]
+            v = rterm(r[f])
+            if case == "rg":
+                w = z3.RealVal(repr(1.0 / A))  # the code's uniform weight 1/N as a double
+                ctx.ensure(f"Rg[{f}]>=0-and-Rg^2=1/N*sum|x_i-c|^2", z3.And(v >= 0, v * v == sum(d * w for d in d2)))
+            else:
+                ctx.ensure(f"Rg[{f}]>=0-and-Rg^2*sum(m)=sum(m_i*|x_i-c|^2)(c=centre-of-geometry)", z3.And(v >= 0, v * v * msum == sum(rterm(M[a]) * d2[a] for a in range(A))))
+
+
+contract("C16", "mdtraj/geometry/", "compute_center_of_geometry|compute_center_of_mass|compute_gyration_tensor|compute_rg",
+         cases=["center_of_geometry", "center_of_mass", "gyration_tensor", "rg"], replay="descriptors", covers=["returned"], max_paths=50)(closed_forms)
